@@ -223,11 +223,9 @@ def event_traces(rep, pid, scen, label, config='default'):
                 continue
             rec = part[k - 1]
             detail = dict(chunks=[bytes(c).decode('latin1') for c in rec['chunks']], events=rec['ev'][:60])
-            if k in qnl:
-                rep.violation('quoted-newline-split' if pid == 'C08' else '', detail) if pid == 'C08' else None
-            else:
-                bad += 1
-                rep.violation('event-trace-not-a-behaviour', detail)
+            bad += 1
+            # QNL marks the trigger of D6 (repaired): a line terminator inside a string that an input call leaves open
+            rep.violation('quoted-newline-split' if (k in qnl and pid == 'C08') else 'event-trace-not-a-behaviour', detail)
     rep.cov['event_traces'] = rep.cov.get('event_traces', 0) + len(recs)
     rep.cov['traces_validated_against_impl'] += len(recs)
     import shutil
